@@ -610,6 +610,21 @@ func (q *TransferQueue) enqueueAndCollectRetriesFor(batch batch) (batch, error) 
 		}
 	}
 
+	// Objects that the server left out of its response will never be
+	// transferred or retried; report them now instead of waiting for them
+	// forever.
+	returned := make(map[string]struct{}, len(bRes.Objects))
+	for _, o := range bRes.Objects {
+		returned[o.Oid] = struct{}{}
+	}
+	for _, t := range batch {
+		if _, ok := returned[t.Oid]; !ok {
+			q.errorc <- errors.New(tr.Tr.Get("[%v] The server did not return this object in its batch response.", t.Oid))
+			q.Skip(t.Size)
+			q.wait.Done()
+		}
+	}
+
 	if len(bRes.Objects) == 0 {
 		return next, nil
 	}
